@@ -12,7 +12,8 @@ RULE = (
     "cases = training programs: loss kind (ODE, stationary, non-stationary; analytic-field network or small real MLP with a "
     "parameter-dependent output transform; dynamic + initial / boundary / observation terms, equation parameters trained "
     "too), optimizer in {sgd, adam, adamw, chain(clip_by_global_norm, adam), sgd with exponential-decay / piecewise-constant "
-    "schedules, sgd with momentum}, n_iter 1..8, store sizes 1..7 with batch sizes that do and do not divide them (so "
+    "schedules, sgd with momentum}, both loop implementations of solve (lax.while_loop, and the python loop selected by "
+    "obs_batch_sharding), n_iter 1..8, store sizes 1..7 with batch sizes that do and do not divide them (so "
     "histories cross epoch boundaries), optional DataGeneratorParameter / DataGeneratorObservations, tracked-parameter "
     "specification (none / one eq key / all eq keys / an nn leaf + an eq key), and resumed runs (solve(n1) then solve(n2) "
     "with the returned optimizer state and generator). Oracle: eager reference loop; the whole 9-tuple is compared (loss "
@@ -88,8 +89,14 @@ def run_case(case):
     if cfg.get("obs_gen"):
         labels.append("obs-gen")
     ref = reference_loop(prog, n)
+    kw = {}
+    if cfg.get("sharding"):
+        import jax
+
+        kw["obs_batch_sharding"] = jax.sharding.SingleDeviceSharding(jax.devices()[0])
+        labels.append("python-loop(obs sharding)")
     out = jinns.solve(n_iter=n, init_params=prog["params"], data=prog["data"], loss=prog["loss"], optimizer=prog["optimizer"],
-                      tracked_params=prog["tracked"], param_data=prog["param_data"], obs_data=prog["obs_data"], verbose=False)
+                      tracked_params=prog["tracked"], param_data=prog["param_data"], obs_data=prog["obs_data"], verbose=False, **kw)
     v = _compare(out, ref, prog, n, labels)
     if v is not None:
         return v
